@@ -97,6 +97,8 @@ type Result struct {
 	// KeptReserve reports that an ordered destination had to protect a `kept` reserve from a later
 	// clause (the shape of known finding C08/dest-inorder/kept-reserve-overconsumed).
 	KeptReserve bool
+	// OverdraftOtherAsset reports that a source's overdraft bound is written in another asset than the send's.
+	OverdraftOtherAsset bool
 	// Grants: largest overdraft granted per account/asset ("" = unbounded) — used by C01.
 	Grants    map[string]*big.Int
 	Unbounded map[string]bool
@@ -416,6 +418,11 @@ func (in *interp) avail(s Source, asset string) (ps []part, fallback string) {
 				in.grant(acc, asset, nil, true)
 			} else {
 				m := in.eval(x.Overdraft.Amount).(VMonetary)
+				if m.Asset != asset {
+					// an overdraft in one asset cannot fund a send of another: the statement contradicts itself
+					in.res.OverdraftOtherAsset = true
+					panic(stop{class: Rejected, reason: fmt.Sprintf("overdraft of %s bounded in %s on a send of %s", acc, m.Asset, asset), any: true})
+				}
 				od = m.Amount
 				in.grant(acc, asset, od, false)
 			}
@@ -837,6 +844,8 @@ func (s *Static) GrantsOf(prog *Program) (grants map[string]*big.Int, unbounded 
 					return
 				}
 				if mv, ok := s.Eval(y.Overdraft.Amount); ok {
+					// (the grant is in the asset the bound is written in)
+					k := string(av.(VAccount)) + "/" + mv.(VMonetary).Asset
 					amt := mv.(VMonetary).Amount
 					if g, ok := grants[k]; !ok || amt.Cmp(g) > 0 {
 						grants[k] = amt
